@@ -200,7 +200,61 @@ def r3(cx):
             recv = pa.root(f, c.args[0])
             if key in ("Created", "Completed", "ErrorCatch"):
                 cx.ob("C16.R3", "owner:%s" % key, recv[0] == "param" and recv[1] == 1, "%s hooks run are those of the task itself" % key, c.loc)
-    cx.floor("C16.R3", 15)
+    # BeforeUpdate / Updated belong to the nearest enclosing *step* of the act, however deep the act is nested (generated
+    # acts hang below other acts), and to the root
+    for c in f.calls():
+        if c.q != T.Q_RUN_HOOKS_BY:
+            continue
+        k = pa.root(f, c.args[1])
+        key = k[2] if k[0] == "agg" else "?"
+        if key not in ("BeforeUpdate", "Updated"):
+            continue
+        recv = pa.root(f, c.args[0])
+        if recv[0] == "call" and recv[1].endswith("Process::root"):
+            cx.ob("C16.R3", "owner:%s:root" % key, True, "%s hooks of the root task fire" % key, c.loc)
+            continue
+        ok, how = _nearest_step(m, pa, f, recv, c)
+        cx.ob("C16.R3", "owner:%s:step" % key, ok,
+              "the %s hooks fired for an act are those of its nearest enclosing step, found by walking up the parents until a Step (%s)%s" % (
+                  key, how, "" if ok else " - acts nested below another act (every generated act) would not reach their step"), c.loc)
+    cx.floor("C16.R3", 19)
+
+
+def _nearest_step(m, pa, f, recv, c, depth=0):
+    """is `recv` the result of an ancestor walk `p = x.parent(); while let Some(t) = p { if t.is_kind(Step) {..} p = t.parent() }`?"""
+    if recv[0] == "local" and recv[4] >= 2:
+        defs = [d for d in f.defs().get(recv[1], []) if d[2] in ("call", "assign")]
+        par = []
+        for d in defs:
+            if d[2] == "call" and Call(f, d[0]).q.endswith("Task::parent"):
+                par.append(d)
+            elif d[2] == "assign" and d[3][0] == "use" and d[3][1][0] in ("m", "c") and not d[3][1][1][1]:
+                src = [x for x in f.defs().get(d[3][1][1][0], []) if x[2] in ("call", "assign")]
+                if len(src) == 1 and src[0][2] == "call" and Call(f, src[0][0]).q.endswith("Task::parent"):
+                    par.append(src[0])
+        if len(par) >= 2 and len(par) == len(defs):
+            # one start (from self) and one step (from the visited task), the step inside a loop
+            loops = natural_loops(f)
+            in_loop = [d for d in par if any(d[0] in body for _, body in loops)]
+            starts = [d for d in par if pa.root(f, Call(f, d[0]).args[0])[:2] == ("param", 1)]
+            kind = False
+            for g in guards_of(m, f, c.b, mode="alias"):
+                r = g.root
+                if r[0] == "call" and r[1].endswith("Task::is_kind") and g.truth is True:
+                    who = pa.root(f, Call(f, r[2]).args[0])
+                    kv = pa.root(f, Call(f, r[2]).args[1])
+                    if who[:2] == recv[:2] and kv[0] == "agg" and kv[2] == "Step":
+                        kind = True
+            return (bool(in_loop) and bool(starts) and kind), "walk over `%s`" % recv[2]
+        return False, "`%s` is not stepped with Task::parent" % recv[2]
+    if recv[0] == "call" and depth < 2:
+        h = m.fns.get(recv[1])
+        if h is not None and h.q.startswith("acts::"):
+            loops = natural_loops(h)
+            walks = [x for x in h.calls() if x.q.endswith("Task::parent") and any(x.b in body for _, body in loops)]
+            kinds = [x for x in h.calls() if x.q.endswith("Task::is_kind")]
+            return (bool(walks) and bool(kinds)), "helper `%s`%s" % (short_name(h.q), "" if walks else " looks at one parent only (no walk)")
+    return False, "receiver %s" % root_str(recv)
 
 
 def r4(cx):
